@@ -110,6 +110,40 @@ def fetchGate (st : HState) (readCode : Int) (records : Bytes) : Int × Bytes :=
   | .degraded | .unavailable => (backpressureCode st, [])
   | .healthy => (readCode, records)
 
+/-! ### a multi-partition produce: the gate is evaluated per partition against the CURRENT rating -/
+
+/-- result for one partition: error code, whether the batch entered the log (`AppendBatch` reached) -/
+structure PartOut where
+  code : Int
+  appended : Bool
+  sawState : HState     -- ghost: the rating the gate of THIS partition read
+deriving Repr, DecidableEq
+
+/-- `handleProduce`'s loop over partitions.  `rating hist` = what `h.s3Health.State()` returns after the S3 operation
+outcomes `hist` (true = failed) recorded so far; `fails` = whether this partition's flush/upload fails (it is recorded by
+`recordS3Op` before the next partition is looked at).  The rating is re-read for every partition. -/
+def produceLoop (rating : List Bool → HState) : List Bool → List Bool → List PartOut
+  | _, [] => []
+  | hist, fails :: rest =>
+    if rating hist = .healthy then
+      { code := if fails then backpressureCode (rating (hist ++ [fails])) else 0, appended := true, sawState := rating hist }
+        :: produceLoop rating (hist ++ [fails]) rest
+    else
+      { code := backpressureCode (rating hist), appended := false, sawState := rating hist } :: produceLoop rating hist rest
+
+/-- a variant that reads the rating ONCE per request (what a "hoisted" `State()` call does) -/
+def produceLoopOnce (rating : List Bool → HState) (hist : List Bool) (parts : List Bool) : List PartOut :=
+  let st := rating hist
+  let rec go : List Bool → List Bool → List PartOut
+    | _, [] => []
+    | h, fails :: rest =>
+      if st = .healthy then
+        { code := if fails then backpressureCode (rating (h ++ [fails])) else 0, appended := true, sawState := rating h }
+          :: go (h ++ [fails]) rest
+      else
+        { code := backpressureCode st, appended := false, sawState := rating h } :: go h rest
+  go hist parts
+
 /-- Kafka's retriable flag for the two codes the gate uses (REQUEST_TIMED_OUT = 7 retriable,
 UNKNOWN_SERVER_ERROR = −1 not retriable — kerr / the Java client's error table). -/
 def retriable (code : Int) : Bool := code == 7
